@@ -15,7 +15,7 @@ from mirsym.models_std import Str, as_str, SpecialStr
 from mirsym.models_fmt import NumStr
 from mirsym.models_ext import DateTimeV, RegexV
 from drivers import evalcore as E
-import common, time
+import common, time, re
 
 
 class DateC(DateTimeV):
@@ -374,11 +374,81 @@ def fam_lexer_date(sess):
         sess.discharged('lexer_date: looks_like_date is true exactly for years 1970..2999 with month 01..12 or without month', family=fam, queries=box.get('paths', 1))
 
 
+CAPS_MOD = r'''
+#[cfg(test)]
+mod verif_c13_caps {
+    use super::*;
+    // VERIF_INPUT: date literal texts separated by '|': print, for each, the text of the capture groups 1..8 ('~' = absent) and the whole match
+    #[test]
+    fn run() {
+        let input = std::env::var("VERIF_INPUT").unwrap();
+        for lit in input.split('|') {
+            match DATE_REGEX.captures(lit) {
+                Some(cap) => {
+                    let groups: Vec<String> = (0..9).map(|i| cap.get(i).map(|m| m.as_str().to_string()).unwrap_or("~".to_string())).collect();
+                    println!("VERIF_OUT {}", groups.join("\u{1}"));
+                }
+                None => println!("VERIF_OUT NOMATCH"),
+            }
+        }
+    }
+}
+'''
+
+
+def fam_captures_model(sess):
+    """validation of the contract model the `literal` family rests on: the tree's real DATE_REGEX (through the real regex crate, in a
+    native test appended to a scratch copy) captures, for every documented literal shape, exactly the year / month / day and the time
+    fields that were written — day, hour, minute and second precision, both separators, one- and two-digit fields"""
+    fam = 'captures_model'
+    shapes = []
+    for sep in '-:':
+        for mo, d in (('12', '11'), ('3', '7'), ('12', '7')):
+            date = '2023' + sep + mo + sep + d
+            for t in ((), ('14',), ('4',), ('14', '05'), ('4', '5'), ('14', '05', '09'), ('4', '5', '9'), ('23', '59', '59')):
+                lit = date + ((' ' + ':'.join(t)) if t else '')
+                shapes.append((lit, ['2023', mo, d] + list(t)))
+    sess.bounds[fam] = {'literal shapes': len(shapes)}
+    rc, lines, raw = common.native_unit('c13caps', 'src/util/datetime.rs', CAPS_MOD, 'util::datetime::verif_c13_caps::run', '|'.join(l for l, _ in shapes))
+    if rc != 0 or len(lines) != len(shapes):
+        sess.inconclusive(fam, 'native captures probe failed (exit %s, %d lines): %s' % (rc, len(lines), raw[-300:]), fam); return
+    bad = []
+    for (lit, want), line in zip(shapes, lines):
+        if line == 'NOMATCH':
+            bad.append((lit, 'no match')); continue
+        g = line.split('\x01')
+        got = [g[1], g[3], g[5]] + [x for x in g[6:9] if x != '~']
+        if g[0] != lit or got != want or any(g[6 + i] == '~' and any(x != '~' for x in g[7 + i:9]) for i in range(2)):
+            bad.append((lit, 'whole match %r, fields %r' % (g[0], got)))
+    if bad:
+        lit, what = bad[0]
+
+        def rep(lit=lit):
+            import os, time, calendar
+            exe = common.native_binary()
+            # a file in the middle of the interval the literal denotes, and one 2 hours later
+            m = re.match(r'(\d{4}).(\d{1,2}).(\d{1,2})(?: (\d{1,2}))?(?::(\d{1,2}))?(?::(\d{1,2}))?', lit)
+            y, mo, d = int(m.group(1)), int(m.group(2)), int(m.group(3))
+            h = int(m.group(4)) if m.group(4) else 12
+            base = calendar.timegm((y, mo, d, h, int(m.group(5) or 0), int(m.group(6) or 0), 0, 0, 0))
+            other = calendar.timegm((y, mo, d, (h + 5) % 24, 0, 0, 0, 0, 0))
+            tree = {'inside': {'size': 1, 'mtime': base}, 'sameday': {'size': 1, 'mtime': other}}
+            r = common.run_cli(exe, ["name from . where modified = '%s'" % lit], tree, env={'TZ': 'UTC'})
+            rows = sorted(r['stdout'].split('\n')[:-1])
+            want = ['inside'] if m.group(4) else ['inside', 'sameday']
+            return rows != want or r['status'] != 0, "where modified = '%s' -> %r, expected %r (status %s)" % (lit, rows, want, r['status'])
+        sess.violated('captures of %r' % lit, 'captures_model/' + ('hour' if lit.count(':') == (0 if '-' in lit[:8] else 2) and ' ' in lit else 'shape'),
+                      'DATE_REGEX captures %s; %d of %d shapes deviate (%r)' % (what, len(bad), len(shapes), [b[0] for b in bad[:4]]), {'literal': lit}, rep, fam)
+    else:
+        sess.validated += len(shapes)
+        sess.discharged('captures_model: the real DATE_REGEX captures the written fields for %d literal shapes' % len(shapes), family=fam, queries=len(shapes))
+
+
 def main(sess):
     sess.engines = ['mirsym (MIR symbolic execution) + z3']
     sess.assumptions += [
         'DATE_REGEX.captures is modelled: the literal matches, groups 1/3/5 present, groups 6/7/8 present left to right, every numeric group a symbolic number of its digit width; '
-        'that the regex captures what the grammar says is outside (regex crate)',
+        'that the tree\'s regex captures what the grammar says is validated natively per literal shape (family captures_model: the real regex crate on 48 shapes)',
         'chrono by contract: with_hour/minute/second -> None outside 0..23 / 0..59, Local.with_ymd_and_hms -> Single(day at 00:00:00) or None (validity of the calendar date is '
         'an uninterpreted predicate), Local::now a symbolic instant; local-time conversion and formatting of `modified`, chrono-english and looks_like_date in the lexer are outside',
     ]
@@ -388,6 +458,8 @@ def main(sess):
         c02.fam_tables(sess, types=('DateTime',))
     if not only or 'literal' in only:
         fam_literal(sess)
+    if not only or 'captures_model' in only:
+        fam_captures_model(sess)
     if not only or 'relative' in only:
         fam_relative(sess)
     if not only or 'lexer_date' in only:
